@@ -462,7 +462,9 @@ def run_witness(prop, only=None):
     pref = only or prop.lower()
     t0 = time.time()
     try:
-        p = subprocess.run([os.path.join(VERIF, 'tool', 'witness.sh'), pref], capture_output=True, text=True, timeout=1500)
+        tier = sys.argv[sys.argv.index('--tier') + 1] if '--tier' in sys.argv[:-1] else os.environ.get('VERIF_TIER', 'quick')
+        p = subprocess.run([os.path.join(VERIF, 'tool', 'witness.sh'), pref], capture_output=True, text=True, timeout=1500,
+                           env=dict(os.environ, VERIF_TIER='thorough' if tier == 'thorough' else 'quick'))
     except subprocess.TimeoutExpired:
         return {'ran': False, 'reason': 'witness timed out', 'results': []}
     res = []
